@@ -46,7 +46,7 @@ def cases(tier, seed, args):
                         permute=bool(i % 4 != 0), regime=['dominant', 'mixed', 'dominant', 'shared'][(i // 4) % 4]))
     for i in range(20 if q else 200):
         out.append(dict(t='snr', T=int(rng.integers(8, 200)), D=int(rng.integers(1, 5)), seed=int(rng.integers(1 << 30)),
-                        snr=float(rng.uniform(-30, 40)), inplace=bool(i % 2)))
+                        snr=float(rng.uniform(-30, 40)), inplace=bool(i % 2), current=['none', 'keyword', 'positional', 'keyword'][(i // 2) % 4]))
     for fn in ('input', 'output'):
         for rd in ('false', 'true', 'prefix'):
             for avg in (True, False):
@@ -149,17 +149,24 @@ def run_case(case):
         X = rng.normal(size=(D, T))
         N = rng.normal(size=(D, T)) * 10.0 ** rng.uniform(-3, 3)
         x0 = enc.digest(X)
+        kw = {}
+        mode = case.get('current', 'none')
+        if mode != 'none':
+            # the caller supplies the current SNR (as get_snr reports it) instead of letting set_snr measure it
+            cur = sxr_module.get_snr(X, N)
+            kw = dict(current_snr=cur)
         if case['inplace']:
-            r, exc = _call(sxr_module.set_snr, X, N, case['snr'])
+            r, exc = _call(sxr_module.set_snr, X, N, case['snr'], **kw) if mode != 'positional' else \
+                _call(sxr_module.set_snr, X, N, case['snr'], kw['current_snr'])
             N2 = N
         else:
-            r, exc = _call(sxr_module.set_snr, X, N, case['snr'], inplace=False)
+            r, exc = _call(sxr_module.set_snr, X, N, case['snr'], inplace=False, **kw)
             N2 = None if r is None else r[1]
         got = None
         if exc == '':
             got, exc = _call(sxr_module.get_snr, X, N2)
         return [dict(kind='snr', want=enc.flt(case['snr']), got=enc.flt(got if got is not None else np.nan), exc=exc,
-                     x_same=enc.digest(X) == x0, fp=f'fn=set_snr;inplace={case["inplace"]}', key=f'snr:{case["seed"]}')]
+                     x_same=enc.digest(X) == x0, fp=f'fn=set_snr;inplace={case["inplace"]};current={mode}', key=f'snr:{case["seed"]}')]
     if t == 'container':
         K, D, T = 2, 2, 16
         rd = {'false': False, 'true': True, 'prefix': case['prefix']}[case['rd']]
